@@ -296,9 +296,13 @@ Section Levels.
     unfold reorder. apply NoDup_somes_flat_map; [apply NoDup_steps; lia|intros; apply nd_ibz|].
     intros x y [[[oz wy] wx] iz] Hx Hy H1 H2. apply In_steps in Hx, Hy; try lia.
     cbv beta zeta in H1, H2. explode H1. explode H2.
-    assert (ou + ofm_ublock c <= ofm_block c) by (apply mult_room; lia).
-    assert (ou0 + ofm_ublock c <= ofm_block c) by (apply mult_room; lia).
-    apply (mult_unique (ofm_block c) x y (ou + ozz) (ou0 + ozz0)); lia.
+    destruct Hmo as [Hmo|Hmo].
+    - assert (ou + ofm_ublock c <= ofm_block c) by (apply mult_room; lia).
+      assert (ou0 + ofm_ublock c <= ofm_block c) by (apply mult_room; lia).
+      apply (mult_unique (ofm_block c) x y (ou + ozz) (ou0 + ozz0)); lia.
+    - (* a single ofm block *)
+      destruct Hx as (Hx1 & Hx2), Hy as (Hy1 & Hy2).
+      rewrite Z.mod_small in Hx2, Hy2 by lia. lia.
   Qed.
 End Levels.
 
@@ -626,7 +630,9 @@ Proof.
   set (sub_w := Z.min (kernel_w c - sx) (decomp_w c)) in *.
   assert (Hsw : 0 < sub_w) by (unfold sub_w; lia).
   pose proof (Z.div_pos el sub_w). pose proof (Z.mod_pos_bound el sub_w Hsw). pose proof (Z.div_mod el sub_w).
-  assert (Hou2 : ou + ofm_ublock c <= ofm_block c) by (apply mult_room; lia).
+  assert (Hou2 : oz < obz + ofm_block c).
+  { destruct Hmo as [Hmo|Hmo]; [|lia].
+    assert (ou + ofm_ublock c <= ofm_block c) by (apply mult_room; lia). lia. }
   assert (Hiu : (iui + iuo) mod ifm_ublock c = 0 /\ 0 <= iui + iuo /\ iui + iuo + ifm_ublock c <= ifm_block_depth c).
   { destruct Hoi as [(P & -> & ->) | (P & -> & ->)].
     - assert (iui = 0) by lia. subst iui. rewrite Z.add_0_l. split; [tauto|]. split; [lia|].
